@@ -31,7 +31,7 @@ CURRENTS = ("Circle", "Polyline")
 KINDS = MAGNETS + ("Dipole",) + CURRENTS
 # more cases where the code is most intricate (2500 lines of case distinctions)
 WEIGHT = {("CylinderSegment", "flux"): 2.5, ("CylinderSegment", "circ"): 1.5,
-          ("TriangularMesh", "flux"): 5.0, ("Tetrahedron", "flux"): 2.0, ("Circle", "circ"): 2.0}
+          ("TriangularMesh", "flux"): 4.0, ("Tetrahedron", "flux"): 2.0, ("Circle", "circ"): 2.0}
 # rough cost of one field evaluation (seconds per observer), used only to size budgets
 COST = {"Cuboid": 3e-6, "Cylinder": 4e-6, "CylinderSegment": 1.3e-4, "Sphere": 1e-6, "Tetrahedron": 6e-6,
         "TriangularMesh": 6e-5, "Dipole": 1e-6, "Circle": 1e-6, "Polyline": 4e-6}
@@ -74,7 +74,9 @@ def gen_source(rng, kind):
     elif kind == "CylinderSegment":
         r2 = s * rng.uniform(0.4, 1)
         r1 = 0.0 if rng.random() < 0.25 else r2 * rng.uniform(0.1, 0.8)
-        phi1 = rng.uniform(-360, 300)
+        # the section may be described with angles in any of the admissible windows of [-360, 360]
+        x = rng.random()
+        phi1 = rng.uniform(-360, -180) if x < 0.35 else rng.uniform(-180, 0) if x < 0.6 else rng.uniform(0, 300)
         phi2 = min(360.0, phi1 + (360.0 if rng.random() < 0.15 else rng.uniform(25, 340)))
         src.update(dimension=[r1, r2, s * aniso[2], phi1, phi2], polarization=pol)
     elif kind == "Sphere":
@@ -1051,7 +1053,7 @@ def run(ctx):
             run_guarded(ctx, lambda: correspondence(ctx, ctx.n(600, 6000)), "C14 correspondence")
     big = bool(ctx.broken)
     mult = 4 if big else 1
-    run_guarded(ctx, lambda: sweep(ctx, ctx.n(12, 40) * mult, ctx.n(40, 150) * mult, ctx.n(0.5, 1.0),
+    run_guarded(ctx, lambda: sweep(ctx, ctx.n(12, 40) * mult, ctx.n(40, 150) * mult, ctx.n(0.35, 1.0),
                                    ctx.n(3, 12) * mult, ctx.n(2e4, 3e4)),
                 "C14 quadrature sweep")
 
